@@ -19,8 +19,8 @@ for fn, props in (('single', ['C02']), ('write', ['C02']), ('splice_direct', ['C
     for nseg, tier in ((1, 'quick'), (2, 'quick'), (3, 'thorough')):
         if fn == 'splice':
             tier = 'thorough'       # measured: > 400 s per shape (symbolic offset/size through ubuf_block_common_splice)
-        if fn in ('single', 'write') and nseg > 2:
-            continue
+        if fn in ('single', 'write', 'dup', 'splice', 'splice_direct') and nseg > 2:
+            continue          # (3-segment dup / splice exhaust 12 GB of solver memory: shape bound stays 2)
         groups.append({'name': 'mem_%s_s%d' % (fn, nseg), 'entry': 'h_mem_' + fn, 'enforce': None, 'dfcc': False, 'defines': ['NSEG=%d' % nseg],
                        'unwind': 7, 'unwindset': recur(nseg), 'timeout': 900 if tier == 'quick' else 2400, 'tier': tier, 'properties': props, 'cost': 3 * nseg,
                        'bounded': 'block of %d segment(s)' % nseg, 'object_bits': 8})
